@@ -147,7 +147,17 @@ def envelope_oracle(
     out: List[Dict[str, Any]] = []
     env, _raw = envelope_of(op, ev)
     if env is None:
-        return out  # no envelope, nothing for this clause to judge
+        # a report file that was written but is not a JSON document is not "no envelope"
+        argv = op["argv"]
+        target = argv[argv.index("--json") + 1] if "--json" in argv else None
+        if target not in (None, "-"):
+            for rel, content in ev.get("files", []):
+                if (rel.endswith("/" + target) or rel == target) and isinstance(content, str):
+                    try:
+                        json.loads(content)
+                    except ValueError as e:
+                        out.append(mm("file_not_json", "the report file holds one JSON document", f"{rel}: {e}"))
+        return out  # no envelope, nothing else for this clause to judge
     reached_main = bool(ev.get("fault_fired")) and str(ev.get("fault_caught_in", "")).endswith("__main__.py:main")
     error_made = bool(op.get("misuse")) or reached_main
     if not isinstance(env, dict) or "success" not in env or "error" not in env or "result" not in env:
